@@ -305,6 +305,86 @@ func genNvar(r *Rng, tier string, emit Emit) {
 	}
 }
 
+// NVAR entries whose name is at a boundary: UCS-2 names of length 0 (terminator only), one
+// character, an odd byte count, no terminator, the terminator in the last two bytes of the entry;
+// ASCII names empty, one character, unterminated.  Each store goes in bare (p_total hands the bytes
+// to NewNVarStore directly) and inside a raw file with the NVAR GUID in a volume.
+func genNvarNames(r *Rng, tier string, emit Emit) {
+	type nm struct {
+		ascii bool
+		raw   []byte
+		data  []byte
+	}
+	var names []nm
+	for _, d := range [][]byte{nil, {7}, {1, 2, 3, 4, 5}} {
+		names = append(names,
+			nm{false, []byte{0, 0}, d},                 // empty UCS-2 name
+			nm{false, []byte{'A', 0, 0, 0}, d},         // one character
+			nm{false, []byte{'A', 0, 'B', 0, 0, 0}, d}, //
+			nm{false, []byte{'A', 0, 'B'}, d},          // odd byte count, no terminator
+			nm{false, []byte{'A', 0, 'B', 0, 'C'}, d},  //
+			nm{false, []byte{'A'}, d},                  // a single byte
+			nm{false, []byte{'A', 0, 'B', 0}, d},       // no terminator (unless the data supplies one)
+			nm{false, []byte{0}, d},                    // half a terminator
+			nm{false, []byte{0, 0, 0}, d},              // terminator, then an odd rest
+			nm{false, []byte{0xFF, 0xFF, 0, 0}, d},     //
+			nm{false, []byte{0, 0xD8, 0, 0}, d},        // lone surrogate
+			nm{true, []byte{0}, d},                     // empty ASCII name
+			nm{true, []byte{'A', 0}, d},                //
+			nm{true, []byte{'A', 'B'}, d},              // unterminated ASCII
+			nm{true, nil, d},                           // no name bytes at all
+			nm{false, nil, d})                          //
+	}
+	one := func(store []byte) {
+		emit("P", "p_total", H(store), "-")
+		emit("P", "p_bounded", H(store))
+		nf := &uefigen.File{Type: 1, State: 0xF8, Body: store}
+		copy(nf.GUID[:], uefi.NVAR[:])
+		v := &uefigen.Vol{FSGUID: uefigen.FFS2, Attrs: 0x4FEFF, Revision: 2, BlockSize: 64, Files: []*uefigen.File{nf}, FreeSpace: r.Pick(0, 8, 100)}
+		img, _ := uefigen.EmitRegion(&uefigen.Region{Elems: []uefigen.Elem{{Vol: v}}})
+		emit("P", "p_total", H(img), "x")
+		emit("P", "p_bounded", H(img))
+	}
+	for _, n := range names {
+		for _, indexed := range []bool{false, true} {
+			for _, tail := range []int{0, 1, 16} {
+				if tier != "thorough" && indexed && tail == 1 {
+					continue
+				}
+				attrs := byte(0x80)
+				if n.ascii {
+					attrs |= 0x02
+				}
+				var body []byte
+				var table []byte
+				if indexed {
+					body = append(body, 0)
+					table = r.Bytes(16)
+				} else {
+					attrs |= 0x04
+					body = append(body, r.Bytes(16)...)
+				}
+				body = append(body, n.raw...)
+				body = append(body, n.data...)
+				sz := 10 + len(body)
+				e := []byte{'N', 'V', 'A', 'R', byte(sz), byte(sz >> 8), 0xFF, 0xFF, 0xFF, attrs}
+				e = append(e, body...)
+				// a second, ordinary entry after it, free space, GUID table
+				if r.Bool() {
+					g := r.Bytes(16)
+					e2 := []byte{'N', 'V', 'A', 'R', 10 + 16 + 3 + 2, 0, 0xFF, 0xFF, 0xFF, 0x86}
+					e2 = append(append(e2, g...), 'o', 'k', 0, 1, 2)
+					e = append(e, e2...)
+				}
+				for i := 0; i < tail; i++ {
+					e = append(e, 0xFF)
+				}
+				one(append(e, table...))
+			}
+		}
+	}
+}
+
 func allByte(b []byte, x byte) bool {
 	for _, c := range b {
 		if c != x {
@@ -530,6 +610,7 @@ func gen(r *Rng, tier string, emit Emit) {
 	}
 	genAudit(r.Fork(0xA0D17), tier, modelMax, emit)
 	genShortCodec(r.Fork(0x5C0DEC), tier, modelMax, emit)
+	genNvarNames(r.Fork(0x4E56A), tier, emit)
 }
 
 func main() {
